@@ -936,6 +936,19 @@ class Exec:
                     out.add(n.name)
         return out
 
+    def frame_snapshot(self, lspec, env):
+        """Networks a loop contract declares unmodified: their state at the loop head."""
+        if lspec is None or lspec.modifies is None:
+            return None
+        return {nm: Snap(v) for nm, v in env.items() if isinstance(v, VNet) and nm not in lspec.modifies}
+
+    def frame_check(self, lname, snaps, env, h):
+        from .spec import same_state
+        for nm, s0 in (snaps or {}).items():
+            v = env.get(nm)
+            if isinstance(v, VNet):
+                self.prove("%s/frame:%s" % (lname, nm), "loop-frame", tuple(sorted(self.spec.props)), same_state(self.c, s0, Snap(v)), h, "loop-step")
+
     def havoc_for_loop(self, node, env, lspec):
         """Forget everything the body may change: objects named in it, and its assigned locals."""
         c = self.c
@@ -1080,11 +1093,15 @@ class Exec:
             raise Unsupported("loop over abstract list")
         lname = "%s/loop[%s]" % (self.fname, h)
 
-        def inv(done, x=None):
+        head_holder = {}
+
+        def inv(done, x=None, phase="head"):
             K = LoopCtx(self, self.A, self.nets, done, content, x, None, env, distinct)
+            K.phase = phase
+            K.head = head_holder.get("snap")
             return self.inv_groups(lspec.inv(c, self.A, K))
 
-        self.prove_groups(lname + "/entry", "loop-entry", inv(c.EMPTY), h)
+        self.prove_groups(lname + "/entry", "loop-entry", inv(c.EMPTY, None, "entry"), h)
         which = self.choose(2)
         self.havoc_for_loop(node, env, lspec)
         # iterating a live table: its key set is part of the havocked state; the content we iterate is
@@ -1106,6 +1123,8 @@ class Exec:
             self.assume_groups(inv(done, x))
             self.bind_loop_var(node, kind, src, x, env)
             headK = LoopCtx(self, self.A, self.nets, done, content, x, None, env, distinct)
+            head_holder["snap"] = headK.snap
+            fsnap = self.frame_snapshot(lspec, env)
             self.loop_stack.append(headK)
             try:
                 self.exec_block(node.body, env)
@@ -1118,7 +1137,8 @@ class Exec:
             if live:
                 now = src.keys if kind == "dictkeys" else src.d.keys
                 self.prove(lname + "/iter-stable", "iter-stable", tuple(sorted(self.spec.props)), now == content, h, "loop-step")
-            self.prove_groups(lname + "/step", "loop-step", inv(c.add(done, x)), h)
+            self.frame_check(lname, fsnap, env, h)
+            self.prove_groups(lname + "/step", "loop-step", inv(c.add(done, x), x, "step"), h)
             if lspec.post is not None:
                 K = LoopCtx(self, self.A, self.nets, done, content, x, None, env, distinct)
                 K.head = headK.snap
@@ -1174,14 +1194,19 @@ class Exec:
         self.prove_groups(lname + "/entry", "loop-entry", inv(), h)
         self.havoc_for_loop(node, env, lspec)
         self.assume_groups(inv())
+        fsnap = self.frame_snapshot(lspec, env)
         if not self.cond(node.test, env):
             return
+        self.loop_stack.append(LoopCtx(self, self.A, self.nets, None, None, None, None, env, False))
         try:
             self.exec_block(node.body, env)
         except _Continue:
             pass
         except _Break:
             return
+        finally:
+            self.loop_stack.pop()
+        self.frame_check(lname, fsnap, env, h)
         self.prove_groups(lname + "/step", "loop-step", inv(), h)
         raise PathEnd()
 
@@ -1193,11 +1218,22 @@ class Exec:
         return [("inv", tuple(sorted(self.spec.props)), r)]
 
     def assume_groups(self, groups):
-        for _, _, f in groups:
-            self.assume(f)
+        for label, _, f in groups:
+            if not label.startswith("hint:"):
+                self.assume(f)
 
     def prove_groups(self, name, kind, groups, h):
-        for label, props, f in groups:
+        """Groups labelled `hint:*` are lemmas: proved first (as obligations of their own) and, when
+        discharged on this path, assumed for the remaining groups."""
+        hints = [g for g in groups if g[0].startswith("hint:")]
+        rest = [g for g in groups if not g[0].startswith("hint:")]
+        for label, props, f in hints:
+            n0 = len(self.obligations)
+            self.prove("%s:%s" % (name, label), "%s:%s" % (kind, label), tuple(props), f, h, kind)
+            new = self.obligations[n0:]
+            if not self.emitting() or (new and all(o.status == "discharged" for o in new)) or (not new and self.only_props is not None):
+                self.assume(f)
+        for label, props, f in rest:
             self.prove("%s:%s" % (name, label), "%s:%s" % (kind, label), tuple(props), f, h, kind)
 
     # ------------------------------------------------------------------ expressions
